@@ -1138,6 +1138,9 @@ class BadCatalogue:
             ('add_fp/negative-length', 'add_fp', False, self.add_negative_length),
             ('add_isohybrid/partition-entry-0', 'add_isohybrid', True, self.hyb_bad({'part_entry': 0})),
             ('add_isohybrid/partition-entry-5', 'add_isohybrid', True, self.hyb_bad({'part_entry': 5})),
+            ('add_hard_link/dup-new-udf', 'add_hard_link', True, self.link_dup_new_in('udf')),
+            ('add_hard_link/dup-new-joliet', 'add_hard_link', True, self.link_dup_new_in('jol')),
+            ('add_hard_link/dup-new-udf', 'add_hard_link', True, self.link_dup_new_in('udf')),
         ]
         return rows
 
@@ -1514,6 +1517,18 @@ class BadCatalogue:
         if m.t['iso'][f]['type'] == 'file' and m.blobs.get(m.t['iso'][f].get('blob')) is None:
             raise Skip('dead')
         return 'add_hard_link', kw
+
+    def link_dup_new_in(self, tns):
+        def b(op):
+            m = self.m
+            if not m.has[tns]:
+                raise Skip('namespace off')
+            f = self.existing('iso', ('file',), op)
+            if m.blobs.get(m.t['iso'][f].get('blob')) is None:
+                raise Skip('dead')
+            tgt = self.existing(tns, ('file', 'dir'), dict(op, i=op.get('i', 0) + 1))
+            return 'add_hard_link', {'iso_old_path': f, {'jol': 'joliet_new_path', 'udf': 'udf_new_path'}[tns]: tgt}
+        return b
 
     def link_new_parent_missing(self, op):
         m = self.m
